@@ -68,9 +68,13 @@ def opFrame : RM Res := do
       | .ok _ => false
     -- oracle for the rejection clauses
     let dmax := max (max (((p1.sub p2).norm - (q1.sub q2).norm).abs) (((p1.sub p3).norm - (q1.sub q3).norm).abs)) (((p2.sub p3).norm - (q2.sub q3).norm).abs)
-    let preds := match g with
+    -- the error names the triple that is collinear: a triple blamed as collinear has (nearly) no area
+    let sineOf := fun (a b c : V3 Float) => let v1 := b.sub a; let v2 := c.sub a; (V3.cross v1 v2).norm / (max (v1.norm * v2.norm) 1e-300)
+    let blamed := if kind == 1 then sineOf p1 p2 p3 ≤ 1e-6 else if kind == 2 then sineOf q1 q2 q3 ≤ 1e-6 else true
+    let preds := (match g with
       | some _ => [P "C17.accepts_rigid" (false, s!"rigid images rejected with {errName kind}")]
-      | none => if kind == 0 then [P "C17.reject_not_isometry" (dmax ≥ 0.005 * 0.99, s!"NotIsometry although distances differ by only {dmax}")] else []
+      | none => if kind == 0 then [P "C17.reject_not_isometry" (dmax ≥ 0.005 * 0.99, s!"NotIsometry although distances differ by only {dmax}")] else []) ++
+      [P "C17.reject_kind" (blamed, s!"rejected with {errName kind} although that triple is a proper triangle (sine source {sineOf p1 p2 p3}, target {sineOf q1 q2 q3})")]
     pure (mkRes ok s!"Frame::frame impl Err({errName kind}) model {match model with | .error e => errName (errCode e) | .ok _ => "Ok"}" preds [s!"err={errName kind}"])
   else
     let iso ← rIso
@@ -147,12 +151,16 @@ def opJac : RM Res := do
   let eps ← rF
   let cond ← rF
   expect "=>"
-  if (← peek?) == some "panic" then return panicRes "Jacobian::new / torques_from_vector"
+  if (← peek?) == some "panic" then
+    let _ ← next
+    return panicRes "Jacobian::new / torques_from_vector"
   let mut rows : Array (List Float) := #[]
   for _ in [0:6] do rows := rows.push (← rV6)
   let x ← rV6
   let iso ← rIso
-  if (← peek?) == some "panic" then return panicRes "a velocity / torque entry point of the Jacobian (wrench or twist in the case line)"
+  if (← peek?) == some "panic" then
+    let _ ← next
+    return panicRes "a velocity / torque entry point of the Jacobian (wrench or twist in the case line)"
   let vel ← rOptV6
   let velIso ← rOptV6
   let velFix ← rOptV6
